@@ -2,10 +2,15 @@ use crate::base::ParamKey;
 use lru::{KeyRef, LruCache};
 use std::borrow::Borrow;
 use std::hash::Hash;
+#[cfg(not(sentinel_verif))]
 use std::sync::{
     atomic::{AtomicU64, Ordering},
     Arc, RwLock,
 };
+#[cfg(sentinel_verif)]
+use std::sync::{atomic::{AtomicU64, Ordering}, Arc};
+#[cfg(sentinel_verif)]
+use crate::verif_sync::{RwLock};
 
 pub trait CounterTrait<K = ParamKey>: Send + Sync + std::fmt::Debug + Default + 'static {
     fn with_capacity(cap: usize) -> Self;
